@@ -325,6 +325,20 @@ def closure_problems(schema):
     for d in schema.directives.values():
         for a in d.arguments:
             ref(a.type, "directive-argument-type:@%s(%s)" % (d.name, a.name))
+        # the by-name index of a directive's arguments holds the very same argument objects
+        amap = getattr(d, "argument_map", None)
+        if amap is not None:
+            edges[0] += 1
+            if sorted(amap) != sorted(a.name for a in d.arguments) or any(amap[a.name] is not a for a in d.arguments):
+                problems.append(("stale-object:directive-argument-map", "@%s" % d.name))
+    for t in schema.types.values():
+        if isinstance(t, (PS.ObjectType, PS.InterfaceType)):
+            for f in t.fields:
+                amap = getattr(f, "argument_map", None)
+                if amap is not None:
+                    edges[0] += 1
+                    if sorted(amap) != sorted(a.name for a in f.arguments) or any(amap[a.name] is not a for a in f.arguments):
+                        problems.append(("stale-object:field-argument-map", "%s.%s" % (t.name, f.name)))
     # implementations index consistent with the registry
     for iname, impls in schema.implementations.items():
         for o in impls:
